@@ -69,4 +69,10 @@ def run(rep, prog, tier):
         el = ev.elem_of(sols, 0)
         sp = Comp(ev.call_method(el, 'get_power', [A('id')], {}, m, 0), [(sols, [])], 'list')
         ok = True if term_equal(t[1], sp) else (None if has_opaque(t[1]) else False)
+        if ok is not True:
+            # the per-frequency quantity may be passed as the unbound method ComplexSolution.get_power, which is then unfolded on the element
+            mc, cc_ = class_of(prog, CS, 'ComplexSolution')
+            fn_ = ev.getattr(ev.ref_of(('class', mc, cc_)), 'get_power', m, 0)
+            sp2 = Comp(ev.apply(fn_, [el, A('id')], {}, m, 1), [(sols, [])], 'list')
+            if term_equal(t[1], sp2): ok = True
     rep.ob('R05.formula', 'frequency-domain', ok, f'= {t!r:.200}', site)
